@@ -137,6 +137,14 @@ def run_property(pid, tier, seed, out=sys.stdout):
     if lemma_list:
         from pyvc import lemmas as L
         lemma_results = L.discharge_lemmas(lemma_list, timeout_s)
+    lean_skipped = []
+    from pyvc import lemmas as L2
+    for le in L2.LEAN_LEMMAS:
+        if pid in le['props']:
+            if tier == 'thorough':
+                lemma_results.append(L2.run_lean(le, VERIF))
+            else:
+                lean_skipped.append(le['name'] + ' (Lean lemma: checked in the thorough tier only)')
     struct_results = []
     for s in structural:
         try:
@@ -346,7 +354,7 @@ def run_property(pid, tier, seed, out=sys.stdout):
                             functions_under_contract=fuc_list, samples=samples or [dict(note='no obligation discharged')],
                             bounded=bounded, undecided=undecided, refuted_known=refuted_known,
                             vacuity_unchecked=vacuity_unchecked,
-                            path_obligations=len(obls), lemmas=[l['name'] for l in lemma_results],
+                            path_obligations=len(obls), lemmas=[l['name'] for l in lemma_results], lemmas_not_run_in_this_tier=lean_skipped,
                             structural=[s['name'] for s in struct_results],
                             explanation="obligations = distinct named obligations (each may have several per-path queries; all paths must be discharged); bounded[] entries are run-time contract checks and are not part of obligations/discharged"),
               assumptions=assumptions, wall_s=round(time.time() - t_start, 2), violations=len(violations))
